@@ -292,6 +292,8 @@ func suiteC18(cfg Config, res *Result) {
 		}
 	}
 	c18None(res)
+	c18Linenumbers(res)
+	c18Pinned(res)
 	c18EmptyBody(res)
 	// widthratio through the template
 	wrN := 14
@@ -663,6 +665,59 @@ func c18EmptyBody(res *Result) {
 			if got != want {
 				res.add(Finding{Kind: "oracle", Proj: "filter", Sig: "c18-" + fp[0] + "-on-empty-body", Case: src, Impl: r.String(), Model: "ApplyFilter on the empty text: " + want})
 			}
+		}
+	}
+}
+
+// c18Linenumbers: every line of the input — the text between line feeds, the empty ones and the one
+// behind a trailing line feed included — keeps its text and gets its number
+func c18Linenumbers(res *Result) {
+	long := strings.Repeat("x", 70000)
+	for _, in := range []string{"", "\n", "one", "one\n", "one\ntwo", "one\ntwo\n\n", "\n\none", "one\r\ntwo", "\r", "é\nüü\n日本", " lead\ntrail ", long, "a\n" + long + "\nb", strings.Repeat("l\n", 120)} {
+		lines := strings.Split(in, "\n")
+		for i := range lines {
+			lines[i] = fmt.Sprintf("%d. %s", i+1, lines[i])
+		}
+		want := strings.Join(lines, "\n")
+		res.Cases++
+		res.DistinctNontrivial++
+		out, err := pongo2.ApplyFilter("linenumbers", pongo2.AsValue(in), nil)
+		got := "error"
+		if err == nil {
+			got = out.String()
+		}
+		if got != want {
+			c := in
+			if len(c) > 60 {
+				c = c[:30] + "…" + fmt.Sprint(len(in), " bytes")
+			}
+			g, w := got, want
+			if len(g) > 80 {
+				g = g[:40] + "…" + fmt.Sprint(len(got), " bytes")
+			}
+			if len(w) > 80 {
+				w = w[:40] + "…" + fmt.Sprint(len(want), " bytes")
+			}
+			res.add(Finding{Kind: "oracle", Proj: "filter", Sig: "c18-linenumbers", Case: fmt.Sprintf("%q", c), Impl: fmt.Sprintf("%q", g), Model: fmt.Sprintf("%q", w)})
+		}
+	}
+}
+
+// c18Pinned: reference values at the edges the windows do not reach (each was wrong once: D53–D57)
+func c18Pinned(res *Result) {
+	ctx := pongo2.Context{"l": []string{"a", "b"}, "li": []int{10, 20, 30}, "s": "héy", "one": 1.0, "half": 0.5, "f15": 1.5, "e": []string{}}
+	for _, c := range [][2]string{
+		{"{% widthratio 5 0 100 %}", "0"}, {"{% widthratio 0 0 100 %}", "0"}, {"{% widthratio 5 0.0 100 %}", "0"}, {"{% widthratio 5 10 0 %}", "0"}, {"{% widthratio 0 10 100 %}", "0"},
+		{"{{ 5|ljust:3 }}|", "5  |"}, {"{{ 5|center:3 }}|", " 5 |"}, {"{{ 5|rjust:3 }}|", "  5|"}, {"{{ 12|center:5 }}|", "  12 |"}, {"{{ 1.5|ljust:10 }}|", "1.500000  |"}, {"{{ true|ljust:6 }}|", "True  |"},
+		{"{{ 12345|ljust:3 }}|", "12345|"}, {"{{ 12345|center:3 }}|", "12345|"}, {"{{ s|ljust:5 }}|{{ s|center:5 }}|", "héy  | héy |"},
+		{`{{ l|join:"" }}`, "ab"}, {`{{ li|join:"" }}`, "102030"}, {`{{ s|join:"" }}`, "héy"}, {`{{ e|join:"" }}|`, "|"}, {`{{ l|join:"-" }}`, "a-b"},
+		{"{{ f15|pluralize }}", "s"}, {"{{ one|pluralize }}", ""}, {`{{ half|pluralize:"y,ies" }}`, "ies"}, {`{{ f15|pluralize:"es" }}`, "es"}, {"{{ 1|pluralize }}|{{ 2|pluralize }}|{{ 0|pluralize }}", "|s|s"},
+	} {
+		res.Cases++
+		res.DistinctNontrivial++
+		r := implRender("{% autoescape off %}"+c[0]+"{% endautoescape %}", ctx)
+		if r.Panicked || r.Err != "" || r.Out != c[1] {
+			res.add(Finding{Kind: "oracle", Proj: "filter", Sig: "c18-pinned", Case: c[0], Impl: r.String(), Model: "ok " + hx(c[1])})
 		}
 	}
 }
